@@ -66,6 +66,9 @@ SEED_STATES = [
     ['a/', 'a/a -> .', 'a/b'],                       # link named like its parent
     ['b/', 'b/a/', 'b/a/b -> ../../a', 'a/', 'a/a'],   # directory link two real levels down: with `**/a/**` the first
     ['a/', 'a/a/', 'a/a/b -> ../../b', 'b/', 'b/a'],   # `**` is forced to be non-empty and the second starts below a literal
+    ['a/', 'a/a/', 'a/a/a', 'b/', 'b/a/', 'b/a/a'],     # two sibling directories with the same two levels below (`*/a/a`)
+    ['b/', 'b/a/', 'b/a/b', 'a -> b'],                  # a top-level link in front of a literal and a second `**` (a/a/b)
+    ['a/', 'a/a', 'b/', 'b/a', '.h/', '.h/a'],          # several prunable sibling directories
 ]
 
 
